@@ -650,6 +650,23 @@ def normalize : Op → Except PyErr Op
 
 end Op
 
+/-! ### one CoNeighbor object used twice (finding F16i)
+
+`CoNeighbor.__neg__` / `__mul__` work in place and return the operand itself, so an expression that mentions the
+same Python object twice sees the mutation in both places. -/
+
+inductive SharedPattern
+  | sub        -- `c - c`        : `c.__add__(-c)`, the argument `-c` negates `c` itself
+  | addNeg     -- `c + (-c)`
+  | mulAdd     -- `(c * 2) + c`  : `c * 2` scales `c` itself
+deriving DecidableEq, Repr
+
+/-- what Python computes for the pattern on ONE CoNeighbor object -/
+def Op.shared : SharedPattern → CoNeighbor → Op
+  | .sub, c => .gsum (.con c.neg) (.con c.neg)
+  | .addNeg, c => .gsum (.con c.neg) (.con c.neg)
+  | .mulAdd, c => .gsum (.con (c.mul 2)) (.con (c.mul 2))
+
 /-! ### operator expressions -/
 
 inductive OpExpr
@@ -707,6 +724,13 @@ def eval : OpExpr → Except PyErr Op
   | normalize e => do (← e.eval).normalize
 
 end OpExpr
+
+/-- the same pattern as an expression over two separate objects -/
+def OpExpr.sharedPattern (p : SharedPattern) (a : Mat) (nz : Bool) : OpExpr :=
+  match p with
+  | .sub => .sub (.coneighbor a nz) (.coneighbor a nz)
+  | .addNeg => .add (.coneighbor a nz) (.neg (.coneighbor a nz))
+  | .mulAdd => .add (.mul (.coneighbor a nz) 2) (.coneighbor a nz)
 
 /-! ### `safe_sparse_dot` (basics.py): which product is taken -/
 
